@@ -14,6 +14,27 @@
 (*    drops the receiver, unstarted tasks never start), then sends Dereg, then exits (join returns). *)
 (* What a client can observe is recorded in the history `h` (module RtProps), whose predicates are   *)
 (* the properties.  Variant constants (design value TRUE) switch one mechanism to a wrong design.    *)
+(*                                                                                                   *)
+(* Environment behaviours and where they are exercised:                                              *)
+(*  - clients on foreign threads (Thr), tasks that stop the System (TaskStop): model and driver;     *)
+(*  - a client that runs ON the arbiter's own thread (SelfSend): a started task sends a further      *)
+(*    function to its own arbiter through Arbiter::current() ("selfspawn"), or first stops its own   *)
+(*    arbiter and then sends ("selfstop").  Model (ArbStartTask) and driver (bodies self_spawn,      *)
+(*    self_stop_then_spawn).  The call is one step: nothing else runs on that thread meanwhile, and  *)
+(*    the predicates are antitone in the interval width (see AtomicCalls);                           *)
+(*  - a backlog in front of the controller: the model lets CtrlStep lag arbitrarily behind, so any   *)
+(*    number of Reg/Dereg/Exit messages may be buffered when it runs; the variant CtrlBatch > 0      *)
+(*    (design 0) is a controller that handles at most that many messages per poll and then sleeps    *)
+(*    without a wake-up.  The driver builds such backlogs with 10-30 arbiters created (and mostly    *)
+(*    stopped) before run() is entered and with bursts created by a foreign thread while the system  *)
+(*    thread is blocked in a task; NArb stays small here, the trace spec has no such bound;          *)
+(*  - exit codes: any integer but NoCode; negative codes in the configs that list one (the variant   *)
+(*    NegCodeIsErr = FALSE lets run() accept them);                                                  *)
+(*  - several Systems hosted one after another by ONE OS thread (driver: "rounds"): NOT modelled.    *)
+(*    The model has one System and no thread-local registers (HANDLE / CURRENT of arbiter.rs and     *)
+(*    system.rs); what `Arbiter::current()` returns is observed on the implementation only (echo     *)
+(*    markers: H_Echo / H_EchoSend are applied by the trace spec, the model always reports           *)
+(*    cur = "ok").  Each System of such a thread is judged as a run of its own.                      *)
 EXTENDS RtProps, TLC
 
 CONSTANTS NArb,      \* worker arbiters 1..NArb (0 is the system arbiter)
@@ -30,13 +51,18 @@ CONSTANTS NArb,      \* worker arbiters 1..NArb (0 is the system arbiter)
           AllowBusy, \* tasks may block their thread for a while
           FifoLocalQueue, StopEndsLoop, FirstCodeKept, ExitStopsAll, RunOnArbiterThread,
           StopBeforeCode, DeregOwnId, RegBeforeReady, ExecuteOnce, SendFailsWhenGone, JoinWaitsExit,
-          RunErrsOnNonZero, BlockOnExact
+          RunErrsOnNonZero, BlockOnExact,
+          SelfSend,  \* tasks may send to (and stop) their own arbiter from its thread via Arbiter::current()
+          SelfSendViaChannel, \* design TRUE; FALSE: a send from the arbiter's own thread skips the command channel
+                     \* and goes straight into the local run queue
+          NegCodeIsErr, \* design TRUE; FALSE: run() reports Ok for negative exit codes
+          CtrlBatch  \* design 0; K > 0: the controller handles at most K messages per poll, then sleeps for good
 
 VARIABLES thr,      \* client thread -> [pc, cmd, ok]
           tasks,    \* task id -> [arb, kind, body, code]
           sysq,     \* controller's queue
-          ctrl,     \* [alive, registry, codeSent, half]
-          oneshot,  \* -1 empty, else the code
+          ctrl,     \* [alive, registry, codeSent, half, batch, stuck]
+          oneshot,  \* NoCode empty, else the code
           runst,    \* "running" | "returned"
           arb,      \* 0..NArb -> [loop, cmdq, localq, busy, stopping]
           ntask,    \* arb -> number of tasks sent to it (task id = 10 * arb + n: canonical per arbiter)
@@ -53,6 +79,9 @@ Workers == 1..NArb
 SysTid == 50
 ArbTid(a) == IF a = 0 THEN SysTid ELSE 60 + a
 TheSysId == 1
+NoCode == -999999
+CodesWithNeg == {0, -7}   \* for `Codes <- CodesWithNeg` (a TLC config file cannot spell a negative number)
+ASSUME NoCode \notin Codes /\ CtrlBatch \in Nat
 
 NextId(a) == 10 * a + ntask[a] + 1
 NoCmd == [op |-> "none", arb |-> 0, id |-> 0, kind |-> "", body |-> "", code |-> 0]
@@ -62,8 +91,8 @@ Init ==
   /\ thr = [t \in Thr |-> [pc |-> "idle", cmd |-> NoCmd, ok |-> TRUE]]
   /\ tasks = EmptyFn
   /\ sysq = <<>>
-  /\ ctrl = [alive |-> TRUE, registry |-> 0..PreCreated, codeSent |-> FALSE, half |-> FALSE]
-  /\ oneshot = -1 /\ runst = "running"
+  /\ ctrl = [alive |-> TRUE, registry |-> 0..PreCreated, codeSent |-> FALSE, half |-> FALSE, batch |-> 0, stuck |-> FALSE]
+  /\ oneshot = NoCode /\ runst = "running"
   /\ arb = [a \in Arbs |-> [loop |-> IF a <= PreCreated THEN "run" ELSE "none", cmdq |-> <<>>, localq |-> <<>>,
                             busy |-> FALSE, stopping |-> FALSE, regPending |-> FALSE]]
   /\ ntask = [a \in Arbs |-> 0] /\ ncmd = 0 /\ nsys = 0
@@ -77,14 +106,17 @@ SysThreadFree == runst = "running" /\ ~arb[0].busy
 CanStep(a) == RxAlive(a) /\ ~arb[a].busy /\ ~arb[a].regPending /\ (a = 0 => runst = "running")
 
 (* ---------------------------- clients ---------------------------- *)
-Bodies(kind) == IF kind = "spawn"
-                  THEN {[body |-> "done", code |-> 0]} \cup
-                       (IF TaskStop /\ nsys < MaxSys THEN {[body |-> "sys", code |-> c] : c \in Codes} ELSE {})
-                  ELSE {[body |-> "done", code |-> 0]} \cup
-                       (IF AllowBusy THEN {[body |-> "busy", code |-> 0]} ELSE {})
+Bodies(kind, a) ==
+  (IF kind = "spawn"
+     THEN {[body |-> "done", code |-> 0]} \cup
+          (IF TaskStop /\ nsys < MaxSys THEN {[body |-> "sys", code |-> c] : c \in Codes} ELSE {})
+     ELSE {[body |-> "done", code |-> 0]} \cup
+          (IF AllowBusy THEN {[body |-> "busy", code |-> 0]} ELSE {}))
+  \cup (IF SelfSend THEN {[body |-> "selfspawn", code |-> 0]} ELSE {})
+  \cup (IF SelfSend /\ a # 0 THEN {[body |-> "selfstop", code |-> 0]} ELSE {})
 
 IssueSpawn(t) ==
-  \E a \in Arbs, kind \in Kinds : \E b \in Bodies(kind) :
+  \E a \in Arbs, kind \in Kinds : \E b \in Bodies(kind, a) :
     /\ arb[a].loop # "none"
     /\ thr' = [thr EXCEPT ![t] = [pc |-> "call", ok |-> TRUE,
                  cmd |-> [op |-> "send", arb |-> a, id |-> NextId(a), kind |-> kind, body |-> b.body, code |-> b.code]]]
@@ -155,7 +187,7 @@ SendEnd(t) ==
 \* a whole call in one step (start, push, return)
 CallAtomic(t) ==
   /\ AtomicCalls /\ ncmd < MaxCmds /\ ncmd' = ncmd + 1
-  /\ \/ \E a \in Arbs, kind \in Kinds : \E b \in Bodies(kind) :
+  /\ \/ \E a \in Arbs, kind \in Kinds : \E b \in Bodies(kind, a) :
           LET inline == ~RunOnArbiterThread /\ kind = "spawn_fn"
               ok == inline \/ RxAlive(a) \/ ~SendFailsWhenGone
               id == NextId(a)
@@ -229,14 +261,27 @@ ArbStartTask(a) ==
          id == q[k]
          rest == [i \in 1..(Len(q) - 1) |-> IF i < k THEN q[i] ELSE q[i + 1]]
          tk == tasks[id]
-         h1 == H_TaskStart(h, id, a, ArbTid(a), "ok", TheSysId) IN
-       /\ arb' = [arb EXCEPT ![a].localq = rest, ![a].busy = (tk.body = "busy")]
+         h1 == H_TaskStart(h, id, a, ArbTid(a), "ok", TheSysId)
+         \* a client on the arbiter's own thread: [stop() on Arbiter::current(), then] spawn_fn on Arbiter::current();
+         \* the loop is alive (this task runs), so both report true
+         self == tk.body \in {"selfspawn", "selfstop"}
+         nid == NextId(a)
+         h2 == IF tk.body = "selfstop" THEN H_StopEnd(H_StopStart(h1, a), a) ELSE h1
+         h3 == H_SendEnd(H_SendStart(h2, nid, a, ArbTid(a), "spawn_fn"), nid, TRUE)
+         stopq == IF tk.body = "selfstop" THEN <<[k |-> "stop", id |-> 0]>> ELSE <<>>
+         sendq == IF SelfSendViaChannel THEN <<[k |-> "exec", id |-> nid]>> ELSE <<>> IN
+       /\ arb' = [arb EXCEPT ![a].localq = IF self /\ ~SelfSendViaChannel THEN Append(rest, nid) ELSE rest,
+                              ![a].cmdq = IF self THEN @ \o stopq \o sendq ELSE @,
+                              ![a].busy = (tk.body = "busy")]
+       /\ IF self THEN /\ tasks' = Put(tasks, nid, [arb |-> a, kind |-> "spawn_fn", body |-> "done", code |-> 0])
+                       /\ ntask' = [ntask EXCEPT ![a] = @ + 1]
+                  ELSE UNCHANGED <<tasks, ntask>>
        /\ IF tk.body = "sys"
             THEN /\ sysq' = IF ctrl.alive THEN Append(sysq, [k |-> "exit", v |-> tk.code]) ELSE sysq
                  /\ h' = H_SysStopEnd(H_SysStopStart(h1, tk.code))
-            ELSE /\ h' = h1 /\ UNCHANGED sysq
+            ELSE /\ h' = (IF self THEN h3 ELSE h1) /\ UNCHANGED sysq
        /\ act' = A("TaskStart", a, id)
-  /\ UNCHANGED <<thr, tasks, ctrl, oneshot, runst, ntask, ncmd, nsys>>
+  /\ UNCHANGED <<thr, ctrl, oneshot, runst, ncmd, nsys>>
 
 ArbYield(a) ==
   /\ arb[a].busy /\ arb' = [arb EXCEPT ![a].busy = FALSE]
@@ -278,17 +323,27 @@ Targets == IF ExitStopsAll \/ ctrl.registry \ {0} = {} THEN ctrl.registry
            ELSE ctrl.registry \ {MaxOf(ctrl.registry)}
 NewCode(c) == IF ~ctrl.codeSent \/ ~FirstCodeKept THEN c ELSE oneshot
 
+\* One message per step (a poll of the real controller handles all buffered messages; other threads may append
+\* between two steps, which is the same as their messages having been buffered when the poll began).
+\* Wrong design CtrlBatch = K > 0 only: `batch` counts the messages taken in the current poll; a poll ends (batch 0,
+\* waker registered) when the queue is found empty; after the K-th message of one poll the controller returns
+\* Pending without a registered waker and is never polled again (`stuck`).
+Polled(c, q) ==
+  IF CtrlBatch = 0 THEN c
+  ELSE IF c.batch + 1 >= CtrlBatch THEN [c EXCEPT !.batch = 0, !.stuck = TRUE]
+  ELSE [c EXCEPT !.batch = IF q = <<>> THEN 0 ELSE @ + 1]
 CtrlStep ==
-  /\ ctrl.alive /\ SysThreadFree /\ sysq # <<>>
+  /\ ctrl.alive /\ ~ctrl.stuck /\ SysThreadFree /\ sysq # <<>>
   /\ LET m == Head(sysq) IN
-       CASE m.k = "reg" -> /\ ctrl' = [ctrl EXCEPT !.registry = @ \cup {m.v}]
+       CASE m.k = "reg" -> /\ ctrl' = Polled([ctrl EXCEPT !.registry = @ \cup {m.v}], Tail(sysq))
                            /\ sysq' = Tail(sysq) /\ UNCHANGED <<arb, oneshot>>
-         [] m.k = "dereg" -> /\ ctrl' = [ctrl EXCEPT !.registry = @ \ {IF DeregOwnId THEN m.v ELSE (m.v % NArb) + 1}]
+         [] m.k = "dereg" -> /\ ctrl' = Polled([ctrl EXCEPT !.registry = @ \ {IF DeregOwnId THEN m.v ELSE (m.v % NArb) + 1}],
+                                               Tail(sysq))
                              /\ sysq' = Tail(sysq) /\ UNCHANGED <<arb, oneshot>>
          [] m.k = "exit" ->
               IF StopBeforeCode
                 THEN /\ arb' = StopAll(Targets) /\ oneshot' = NewCode(m.v)
-                     /\ ctrl' = [ctrl EXCEPT !.codeSent = TRUE] /\ sysq' = Tail(sysq)
+                     /\ ctrl' = Polled([ctrl EXCEPT !.codeSent = TRUE], Tail(sysq)) /\ sysq' = Tail(sysq)
                 ELSE IF ~ctrl.half                                   \* wrong design: code first, arbiters later
                   THEN /\ oneshot' = NewCode(m.v) /\ ctrl' = [ctrl EXCEPT !.codeSent = TRUE, !.half = TRUE]
                        /\ UNCHANGED <<arb, sysq>>
@@ -298,13 +353,13 @@ CtrlStep ==
   /\ UNCHANGED <<thr, tasks, runst, ntask, ncmd, nsys, h>>
 
 RunReturn ==
-  /\ SysThreadFree /\ oneshot # -1
+  /\ SysThreadFree /\ oneshot # NoCode
   /\ runst' = "returned"
   /\ ctrl' = [ctrl EXCEPT !.alive = FALSE, !.half = FALSE]
   /\ sysq' = <<>>
   /\ arb' = EndLoop(0)
   /\ \E api \in {"run", "run_with_code"} :
-       LET ok == api = "run_with_code" \/ oneshot = 0 \/ ~RunErrsOnNonZero IN
+       LET ok == api = "run_with_code" \/ oneshot = 0 \/ ~RunErrsOnNonZero \/ (oneshot < 0 /\ ~NegCodeIsErr) IN
          h' = H_RunRet(h, api, ok, IF api = "run" /\ ok THEN 0 ELSE oneshot)
   /\ act' = A("RunReturned", oneshot, 0)
   /\ UNCHANGED <<thr, tasks, oneshot, ntask, ncmd, nsys>>
@@ -327,7 +382,7 @@ Fairness == /\ \A t \in Thr : WF_vars(Enq(t)) /\ WF_vars(SendEnd(t))
 FairSpec == Spec /\ Fairness
 
 (* ---------------------------- properties on the internal state ---------------------------- *)
-TypeOK == /\ oneshot \in Codes \cup {-1} /\ runst \in {"running", "returned"}
+TypeOK == /\ oneshot \in Codes \cup {NoCode} /\ runst \in {"running", "returned"}
           /\ \A a \in Arbs : arb[a].loop \in {"none", "run", "ended", "exited"}
           /\ ctrl.registry \subseteq Arbs
 
